@@ -54,6 +54,7 @@ type EngineSpec struct {
 	Debug     bool
 	RateLimit int
 	Extra     map[string]flamingo.TemplateFunc
+	Manifest  string // content of manifest.json ("" = no file); also registers the module's asset() function
 }
 
 type Eng struct {
@@ -85,6 +86,12 @@ func newEngine(spec EngineSpec) (*Eng, error) {
 	funcs := moduleFuncs()
 	for k, v := range spec.Extra {
 		funcs[k] = v
+	}
+	if spec.Manifest != "" {
+		if err := os.WriteFile(filepath.Join(dir, "manifest.json"), []byte(spec.Manifest), 0o644); err != nil {
+			return nil, err
+		}
+		funcs["asset"] = assetFunc(e)
 	}
 	e.FuncProvider = func() map[string]flamingo.TemplateFunc { return funcs }
 	return &Eng{E: e, Dir: dir}, nil
